@@ -13,6 +13,7 @@ import (
 	"testing"
 
 	"github.com/panjf2000/gnet/v2/internal/verifmc/seqmc"
+	bsPool "github.com/panjf2000/gnet/v2/pkg/pool/byteslice"
 )
 
 var errBoom = errors.New("boom")
@@ -257,6 +258,7 @@ func (m *c11) dropFront(n int) {
 }
 
 func (m *c11) invariants(op string) (string, string) {
+	churnPool(1, 2, 3, 5, 7, 8, 500, 512)
 	flat := m.flat()
 	b := m.b
 	if b.Buffered() != len(flat) {
@@ -501,4 +503,23 @@ func opName(op string) string {
 		}
 	}
 	return op
+}
+
+// churnPool plays an unrelated user of the shared byte-slice pool: whatever memory the buffer
+// under test still references must not be handed out by the pool.
+func churnPool(sizes ...int) {
+	var held [][]byte
+	for _, k := range sizes {
+		if k > 0 {
+			b := bsPool.Get(k)
+			full := b[:cap(b)]
+			for i := range full {
+				full[i] = 0xA5
+			}
+			held = append(held, b)
+		}
+	}
+	for _, b := range held {
+		bsPool.Put(b)
+	}
 }
